@@ -304,6 +304,43 @@ def check(case, M):
     cts = {W.tt_repo(t) for t in const_types}
     failures = []
     tags = [f"depth{md}", f"minvar{mv}", f"ngram{ng}", "infinite" if infinite else "bounded"]
+    # ---- history (a third of the cases): the SAME DSL object was compiled before with ANOTHER forbidden table,
+    # which was then edited in place (new key, set.add / set.discard, del) until it is the table of this case.
+    # "For every DSL, every forbidden-pattern table": the grammar must denote the terms that respect the table the
+    # DSL has when it is compiled, whatever was compiled from the object before.
+    hr = random.Random(case["nseed"] ^ 0x5EED)
+    if hr.random() < 0.34:
+        names = [n for n, _ in prims]
+        fnames = [n for n, t in prims if not isinstance(t, str) and t[0] == "->"]
+        past = {k: set(v) for k, v in forb.items()}
+        if past and hr.random() < 0.6:
+            del past[hr.choice(sorted(past))]
+        if past and hr.random() < 0.6:
+            past[hr.choice(sorted(past))].add(hr.choice(names))
+        if fnames and hr.random() < 0.8:
+            past.setdefault((hr.choice(fnames), 0), set()).add(hr.choice(names))
+        if past != forb:
+            dsl = DSL({n: W.tt_repo(t) for n, t in prims}, {k: set(v) for k, v in past.items()})
+            for build in (lambda: CFG.depth_constraint(dsl, tr, min(md, 3), mv, ng, rec, cts), lambda: CFG.infinite(dsl, tr, max(ng, 0), rec, cts)):
+                try:
+                    build()
+                except KeyError:
+                    pass
+            table = dsl.forbidden_patterns
+            for k in list(table):
+                if k not in forb:
+                    del table[k]
+            for k, v in forb.items():
+                if k in table:
+                    for x in list(table[k]):
+                        if x not in v:
+                            table[k].discard(x)
+                    for x in v:
+                        table[k].add(x)
+                else:
+                    table[k] = set(v)
+            prim_objs = {p.primitive: p for p in dsl.list_primitives}
+            tags.append("history.forbidden-table-edited-in-place")
     if rec:
         tags.append("recursive")
     if forb:
